@@ -1,11 +1,11 @@
 SPECIFICATION Spec
-CONSTANT N = 4
-CONSTANT SITES <- Sites4v
-CONSTANT STENCIL1 <- StV1
-CONSTANT STENCIL2 <- StV2
-CONSTANT VANISH <- Vanish4
+CONSTANT N = 3
+CONSTANT SITES <- Sites5
+CONSTANT STENCIL1 <- StA3
+CONSTANT STENCIL2 <- StB3
+CONSTANT VANISH <- NoVanish
 CONSTANT ALLORDERS = TRUE
-CONSTANT EMITMOD = 149
+CONSTANT EMITMOD = 1499
 INVARIANT InvAccel
 INVARIANT InvTotal
 INVARIANT InvSame
